@@ -323,6 +323,10 @@ func check(args []string) int {
 				qs = append(qs, q)
 			}
 			for _, other := range []string{"z3-new", "cvc5"} {
+				if other == "cvc5" && len(qs) > 4000 {
+					// cvc5's incremental mode keeps growing with the number of push/pop scopes: a sample bounds time and memory
+					qs = qs[:4000]
+				}
 				agree, differ, rerr := symgo.Recheck(other, qs)
 				if crossCheck == nil {
 					crossCheck = map[string]int{}
